@@ -111,6 +111,15 @@ def check_freq(led):
                             A_ok = isinstance(c['A'], tuple) and c['A'][0] == 'neg'
                             if not A_ok:
                                 probs.append('dense solver first operand is %r, expected -M' % (c['A'],))
+                        if not sparse:
+                            # active amplitudes of the dense path: exactly those with a non-zero mass column sum
+                            rows = None
+                            t_ = mbase
+                            if isinstance(t_, tuple) and t_ and t_[0] == 'store':
+                                rows = t_[2][0]
+                            ok_masks = [('mask', ('cmp', '!=', ('sum', 0, 'M'), z_)) for z_ in (0, '0')] + [('mask', ('cmp', '>', ('abs', ('sum', 0, 'M')), z_)) for z_ in (0, '0')]
+                            if rows is not None and rows not in ok_masks:
+                                probs.append('modes are scattered into rows %r, expected the amplitudes whose mass column sum is non-zero' % (rows,))
                         if vsel != msel:
                             probs.append('values and modes are selected differently: %r vs %r (pairing of column i with value i is lost)' % (vsel, msel))
                     if probs:
